@@ -264,6 +264,46 @@ func vpSetIDName(x Item, id IRI, txt byte, typ ActivityVocabularyType) {
 
 func vpH_C07_names() { vpC07Name() }
 
+// a value of every Go type with any one further property set (formerType, relationship, a nested
+// typed object, ...) decodes, from both codecs, to the same Go type bearing the same type name:
+// no other property can take the place of the type.
+func vpH_C07_populated() {
+	ti := vpChoice(len(vpTypeNames))
+	fields := vpFieldsOf(ti)
+	f := vpChoice(len(fields))
+	if vpShapes(fields[f].Kind) == 0 {
+		vpReach("end")
+		return
+	}
+	x := vpNew(ti)
+	vpSetField(x, 0, 0, 'i')
+	if f != 0 {
+		vpSetField(x, f, 0, 'a')
+	}
+	cell := vpTypeNames[ti] + "." + fields[f].Name
+	var y Item
+	var err error
+	if vpBool() {
+		cell += "/json"
+		var b []byte
+		b, err = vpMarshalItem(x)
+		vpAssert("populated/encodes/"+cell, err == nil && len(b) > 0)
+		y, err = UnmarshalJSON(b)
+	} else {
+		cell += "/gob"
+		var b []byte
+		b, err = GobEncode(x)
+		vpAssert("populated/encodes/"+cell, err == nil && len(b) > 0)
+		y, err = GobDecode(b)
+	}
+	vpAssert("populated/decodes/"+cell, err == nil && y != nil)
+	if y != nil {
+		vpAssert("populated/go-type/"+cell, vpSameGoType(x, y))
+		vpAssert("populated/type-name/"+cell, y.GetType() == x.GetType())
+	}
+	vpReach("end")
+}
+
 // family predicates and helpers agree with the family the vocabulary places the name in
 func vpH_C07_families() {
 	c := vpVocabConsts[vpChoice(len(vpVocabConsts))]
